@@ -17,10 +17,13 @@ theorem ruleText_cellLen (cw : Char → Nat) (hsp : cw ' ' = 1) (h2 : ∀ c, cw 
   · exact setCellSizeI_cellLen cw hsp h2 _ w hw
   · exact setCellSizeI_cellLen cw hsp h2 _ w hw
 
-theorem rstripEnd_id (plain : List Char) (w : Int) (h : (plain.length : Int) ≤ w ∨ trailingSpaces plain = 0) :
-    rstripEnd plain w = plain := by
+theorem rstripEnd_id (cw : Char → Nat) (v : Variant) (plain : List Char) (w : Int)
+    (h : (if v.rstripCountsChars = true then (plain.length : Int) else (cellLen cw plain : Int)) ≤ w ∨ trailingSpaces plain = 0) :
+    rstripEnd cw v plain w = plain := by
   unfold rstripEnd
-  by_cases h1 : (plain.length : Int) > w
+  simp only
+  generalize (if v.rstripCountsChars = true then (plain.length : Int) else (cellLen cw plain : Int)) = tl at h
+  by_cases h1 : tl > w
   · rcases h with h | h
     · omega
     · simp [h1, h]
